@@ -524,7 +524,12 @@ func (tr *Tr) mergeStates(sts []*State) *State {
 			for i, v := range vals {
 				ts[i] = v.(Sc).T
 			}
-			out.vars[name] = Sc{T: tr.mergeLeaf(name, false, sort, ts, guards)}
+			merged := tr.mergeLeaf(name, false, sort, ts, guards)
+			out.vars[name] = Sc{T: merged}
+			if anc := tr.commonAllocAncestor(ts); anc != "" && anc != merged {
+				// on every incoming path the merged version extends anc by writes to fresh objects only
+				tr.allocParent[merged] = anc
+			}
 		} else {
 			out.vars[name] = tr.mergeValues(name, vals, guards)
 		}
@@ -1091,4 +1096,41 @@ func hasBound(v Value) bool {
 		}
 	}
 	return false
+}
+
+// commonAllocAncestor returns a heap version that every given version equals or extends by allocation-only writes.
+func (tr *Tr) commonAllocAncestor(ts []string) string {
+	chain := func(t string) []string {
+		c := []string{t}
+		for hops := 0; hops < 500; hops++ {
+			p, ok := tr.allocParent[t]
+			if !ok {
+				break
+			}
+			c = append(c, p)
+			t = p
+		}
+		return c
+	}
+	first := chain(ts[0])
+	for _, cand := range first {
+		ok := true
+		for _, t := range ts[1:] {
+			found := false
+			for _, x := range chain(t) {
+				if x == cand {
+					found = true
+					break
+				}
+			}
+			if !found {
+				ok = false
+				break
+			}
+		}
+		if ok {
+			return cand
+		}
+	}
+	return ""
 }
